@@ -73,7 +73,9 @@ theorem recv_rows (b : Bool) (me : Nat) (mine : List Nat) (s : Store) (w : Wrapp
       · split
         · exact Or.inl rfl
         · split
-          · split <;> exact Or.inl rfl
+          · split
+            · exact Or.inl rfl
+            · split <;> exact Or.inl rfl
           · split
             · exact Or.inl rfl
             · split
